@@ -123,6 +123,9 @@ pub struct World {
     pub stalled_until: Vec<u64>,
     /// every Feed sent: (sender addr, receiver addr, addresses the sender held as active when it sent it)
     pub feed_log: Vec<(u16, u16, Vec<u16>)>,
+    /// hard cap on processed events per run (a message storm must not exhaust memory)
+    pub max_events: u64,
+    pub runaway: bool,
 }
 
 impl World {
@@ -154,6 +157,8 @@ impl World {
             lag_ns: vec![0; n],
             stalled_until: vec![0; n],
             feed_log: Vec::new(),
+            max_events: 1_500_000,
+            runaway: false,
             wc,
         }
     }
@@ -352,6 +357,19 @@ impl World {
     /// Process the next event. Returns Ok(None) when the queue is empty; plan operations are
     /// handed back to the scenario as Err(op index).
     pub fn step(&mut self) -> Result<Option<Option<StepInfo>>, usize> {
+        if self.events > self.max_events || self.queue.len() > 2_000_000 {
+            if !self.runaway {
+                self.runaway = true;
+                self.violations.push(Violation {
+                    property: "C18",
+                    tag: "C18/event-storm-in-cluster-run".into(),
+                    detail: format!("{} events processed, {} queued at t={}ms: the run was cut short", self.events, self.queue.len(), self.now / MS),
+                    at: self.now,
+                });
+            }
+            self.queue.clear();
+            return Ok(None);
+        }
         let Some(Reverse(ev)) = self.queue.pop() else { return Ok(None) };
         if ev.at > self.now {
             self.now = ev.at;
